@@ -214,7 +214,9 @@ def c_local_eq(ctx, it, cfg):
         ctx.prove('set%d/state-variables-overwritten-with-the-current-conditions' % i, and_(eq(c.dof.get(0), GE), eq(c.dof.get(1), 1), eq(c.dof.get(2), 101325), eq(c.dof.get(3), T)))
         ctx.prove('set%d/site-fractions-kept-as-starting-point' % i, and_(*[eq(c.dof.get(4 + j), old[i](4 + j)) for j in range(3)]))
     ctx.prove('canary/state-variables-were-stale', eq(css[0].dof.get(3), old[0](3)), expect='refuted')
-    ctx.prove('solver-called-once-with-these-sets-and-conditions', len(solved) == 1 and solved[0][0] is css and all(eq(solved[0][1][k], conds[k]) is True or isinstance(eq(solved[0][1][k], conds[k]), SV) or solved[0][1][k] == conds[k] for k in conds))
+    ctx.prove('solver-called-once-with-these-sets', len(solved) == 1 and solved[0][0] is css and set(solved[0][1].keys()) == set(conds.keys()))
+    if len(solved) == 1 and set(solved[0][1].keys()) == set(conds.keys()):
+        ctx.prove('solver-gets-the-conditions-unchanged', and_(*[eq(solved[0][1][k], conds[k]) for k in conds]))
 
 
 @REG.contract('BinaryThermodynamics.getInterfacialComposition/batch-equals-point-by-point', [BT + ':BinaryThermodynamics.getInterfacialComposition', UT + ':_process_TG_arrays'],
@@ -386,3 +388,27 @@ def c_sampling_cache(ctx, it, cfg):
 # evaluating a size alone or inside an array gives the same interfacial compositions (growth law contract shared with C12)
 from . import c12 as _c12
 REG.contracts.append(_c12.c_curv_growth.contract)
+
+
+@REG.contract('computeMobility/no-hidden-cache', ['kawin.diffusion.DiffusionParameters:computeMobility'])
+def c_no_hidden_cache(ctx, it, cfg):
+    """a mobility query made WITHOUT a cache object evaluates the point itself -- every time; one made with the caller's table uses that table and no other"""
+    DPm = it.load('kawin.diffusion.DiffusionParameters')
+    MD = DPm.env['MobilityData']
+    seen = []
+    key = DPm.env['_computeSingleMobility'].key
+
+    def single(interp, fn, args, kwargs):
+        seen.append(args[4] if len(args) > 4 else kwargs.get('hashTable'))
+        return MD(mobility=NP.array([[real(ctx, 'm%d' % len(seen))]]), phases=NP.array(['FCC_A1']), phase_fractions=NP.array([1]), chemical_potentials=NP.array([real(ctx, 'mu%d' % len(seen))]))
+    it.summaries[key] = single
+    th = type('Therm', (), {'numElements': 3, 'elements': ['NI', 'AL', 'CR', 'VA']})()
+    x = NP.array([[real(ctx, 'x0'), real(ctx, 'x1')]])
+    T = NP.array([real(ctx, 'T')])
+    cm = DPm.env['computeMobility']
+    cm(th, x, T)
+    cm(th, x, T)
+    ctx.prove('queries-without-a-table-are-evaluated-without-any-table', len(seen) == 2 and seen[0] is None and seen[1] is None)
+    mine = DPm.env['HashTable']()
+    cm(th, x, T, mine)
+    ctx.prove('query-with-the-callers-table-uses-that-table', len(seen) == 3 and seen[2] is mine)
